@@ -160,11 +160,9 @@ def find_capture_site(crate, cpath):
     return None
 
 
-_cm_cache = {}
-
-
 def capture_map(crate, can):
-    key = (id(crate), can.path)
+    _cm_cache = crate.__dict__.setdefault("_cm_cache", {})
+    key = can.path
     if key not in _cm_cache:
         cm = None
         if can.f["kind"] == "Closure":
